@@ -197,7 +197,32 @@ def chk_noop(c):
             'refine_region(%d, <predicate matching nothing>) changed the space' % lv
 
 
-CHECKS = {'space': chk_space, 'kinds': chk_kinds, 'region': chk_region, 'noop': chk_noop}
+def chk_alias(c):
+    """marks that ALIAS the space's own data (the live set `hs.active_cells(lv)` / `hs.hmesh.active[lv]`, "refine everything on level lv")
+    give the same space as a copy of those marks"""
+    def snap(hs):
+        return ([sorted(a) for a in hs.actfun], [sorted(a) for a in hs.deactfun], [sorted(a) for a in hs.hmesh.active], [sorted(a) for a in hs.hmesh.deactivated])
+    L = hgen.build(c['spec']).numlevels
+    for lv in range(L):
+        for how in ('active_cells', 'hmesh.active', 'two-levels'):
+            h1, h2 = hgen.build(c['spec']), hgen.build(c['spec'])
+            if not h1.hmesh.active[lv]:
+                continue
+            if how == 'active_cells':
+                m1, m2 = {lv: h1.active_cells(lv)}, {lv: set(h2.active_cells(lv))}
+            elif how == 'hmesh.active':
+                m1, m2 = {lv: h1.hmesh.active[lv]}, {lv: set(h2.hmesh.active[lv])}
+            else:
+                lo = max(0, lv - 1)
+                m1 = {k: h1.hmesh.active[k] for k in (lo, lv)}
+                m2 = {k: set(h2.hmesh.active[k]) for k in (lo, lv)}
+            h1.refine(m1)
+            h2.refine(m2)
+            assert snap(h1) == snap(h2), 'refine({%d: <the live set %s>}) differs from refining a copy of that set: e.g. active functions per level %r vs %r' % (
+                lv, how, [len(a) for a in h1.actfun], [len(a) for a in h2.actfun])
+
+
+CHECKS = {'space': chk_space, 'kinds': chk_kinds, 'region': chk_region, 'noop': chk_noop, 'alias': chk_alias}
 
 
 def generate(tier, rng):
@@ -278,6 +303,7 @@ def generate(tier, rng):
                  {'dim': 2, 'n': 3, 'p': 1, 'disparity': 'inf', 'truncate': True, 'history': [{'0': [[0, 0], [1, 1]]}]},
                  {'dim': 2, 'n': 4, 'p': 2, 'disparity': 2, 'history': [{'0': [[3, 3]]}, {'0': [[0, 0]], '1': [[6, 6]]}]}):
         yield 'noop', {'spec': spec}
+        yield 'alias', {'spec': spec}
     # marks as list/tuple with finite disparity on several levels (the documented container kinds)
     yield 'kinds', {'spec': {'dim': 2, 'n': 4, 'p': 2, 'disparity': 1, 'history': [{'0': [[3, 3]]}, {'0': [[0, 0]], '1': [[6, 6]]}]}}
     yield 'kinds', {'spec': {'dim': 1, 'n': 4, 'p': 2, 'disparity': 1, 'history': [{'0': [[3]]}, {'0': [[0]], '1': [[7]]}]}}
